@@ -763,7 +763,123 @@ def c13(ctx):
         assumptions=TCB + ["expected values for int->float conversions and array targets are left unspecified by the model"])
 
 
+def c20(ctx):
+    consts = dict(NKeys=4, MaxCap=4 if ctx.quick else 5, MaxLen=5 if ctx.quick else 7, MaxDocs=3)
+    wd = ctx.sub("gen-SFKeyCache")
+    import time as _t
+    t0 = _t.time()
+    out, gen, dist = core.run_tlc(ctx, "SFKeyCache", core.cfg(consts, ["Report", "ReturnsRequested", "Bounded", "NoDuplicates", "OnlySeenKeys", "MostRecentLast"]),
+                                  wd, workers=8)
+    rows = core.printed_json(out)
+    ctx.gen_stats.append(dict(spec="SFKeyCache", constants=consts, states=dist, transitions=gen, reported=len(rows), wall_s=round(_t.time() - t0, 1)))
+    for inv in ("ReturnsRequested", "Bounded", "NoDuplicates", "OnlySeenKeys", "MostRecentLast"):
+        ctx.model_checks.append("SFKeyCache!%s (LRU refines the cache-less lookup) held on %d states" % (inv, dist))
+    log("G SFKeyCache: %d states, %d histories" % (dist, len(rows)))
+    cases = []
+    for n, r in enumerate(rows):
+        combos = [("json", "ifc"), ("cborl", "int"), ("ubjson", "struct"), ("json", "struct"), ("cborl", "ifc"), ("ubjson", "int"),
+                  ("json", "int"), ("cborl", "struct"), ("ubjson", "ifc")]
+        for fmt, target in ([combos[n % 9]] if ctx.quick else [combos[n % 9], combos[(n + 4) % 9], combos[(n + 7) % 9]]):
+            cases.append(case("C20", "keycache", fmt, sub=dict(cap=r["cap"], hist=r["hist"], target=target, model_lru=r["lru"]), origin="SFKeyCache"))
+    number(cases)
+    tf, st = core.run_harness(ctx, cases)
+    failed, nv = core.tlc_validate(ctx, "TraceCodec", tf)
+    # drift diagnostic only: LRU order of the implementation vs. the model
+    drift = 0
+    with open(tf) as f:
+        for line in f:
+            d = json.loads(line)
+            lru = (d.get("extra") or {}).get("lru") or []
+            if lru and d["sub"]["cap"] > 0:
+                last = [bytes(k) for k in lru[-1]]
+                model = [gotypes_key(k) for k in d["sub"]["model_lru"]]
+                if last != model:
+                    drift += 1
+    return run.decide(
+        ctx, "TraceCodec", cases, tf, failed, nv, level_note="", exhaustive=True,
+        rule="TLC walks the LRU model SFKeyCache: EVERY access history up to MaxLen over 4 keys (incl. the empty key and keys sharing a "
+             "prefix) x EVERY capacity 0..MaxCap, split into up to 3 documents, checking on every state that the LRU refines the "
+             "cache-less lookup; each history is replayed on the real unfolder (keys delivered by reference by the JSON/UBJSON/CBOR "
+             "parser into map[string]interface{}, map[string]int and map[string]struct targets) with the cache enabled and disabled, the "
+             "source bytes being overwritten after every document; TraceCodec!KeyCacheVerdict requires identical results and intact keys. "
+             "Distinct = distinct (capacity, history, format, target); non-trivial = at least one repeated key.",
+        nontrivial=lambda c: len(set(c["sub"]["hist"])) < len(c["sub"]["hist"]),
+        extra_cov=dict(lru_order_drift_vs_model=drift),
+        assumptions=TCB + ["LRU order (hook VerifKeyCache) is compared with the model as a drift diagnostic only; it never gates"])
+
+
+def gotypes_key(idx):
+    return [b"", b"a", b"ab", b"abc", b"b", "k\u00e9y".encode()][idx - 1]
+
+
+def c14(ctx):
+    rnd = ctx.rng
+    rows = gen_gotypes(ctx)
+    seen, types = set(), []
+    for r in rows:
+        k = json.dumps(r["T"], sort_keys=True)
+        if k not in seen and r["T"]["k"] != "named":
+            seen.add(k)
+            types.append(r["T"])
+    rnd.shuffle(types)
+    types = types[: 500 if ctx.quick else 3000]
+    others = list(types)
+    cases = []
+    for n, T in enumerate(types):
+        follow = gotypes.stream_for(T, rnd, extras=True)
+        variants = []
+        for j in range(3 if ctx.quick else 8):
+            c = rnd.random()
+            if c < 0.4:
+                st = gotypes.any_value(rnd)                       # arbitrary value: scalar for container, array for object, ...
+            elif c < 0.75:
+                st = gotypes.stream_for(rnd.choice(others), rnd)  # a document made for another type
+            else:
+                st = gotypes.stream_for(T, rnd)                   # matching document, abandoned somewhere
+            variants.append((st, None))
+        # announced lengths that the stream does not back with elements
+        for e in (20, 28, 31, 62, 63):
+            for kind in ("arrS", "objS"):
+                inner = gotypes.any_value(rnd, 2) if kind == "arrS" else [streams.ev("key", "key", list(b"k"))] + gotypes.any_value(rnd, 2)
+                st = [streams.ev(kind, kind, (), 7, "any")] + inner
+                variants.append((st, {"0": e}))
+                # ... nested inside a member that matches a field, if the target is a struct
+                if T["k"] == "struct":
+                    fs = [f for f in T["f"] if not gotypes.skipped(f)]
+                    if fs:
+                        f = rnd.choice(fs)
+                        st2 = [streams.ev("objS", "objS", (), -1, "any"), streams.ev("key", "key", list(gotypes.fname(f)))] + st
+                        variants.append((st2, {"2": e}))
+        if ctx.quick:
+            variants = variants[:3] + rnd.sample(variants[3:], 4)
+        for st, lenexp in variants:
+            cuts = sorted(set([len(st)] + [rnd.randint(0, len(st)) for _ in range(2)]))
+            for k in cuts:
+                sub = dict(T=T, abandon=k, follow=follow)
+                if lenexp:
+                    sub["lenexp"] = lenexp
+                cases.append(case("C14", "unfoldx", "go", stream=st, sub=sub, origin="mismatch" if not lenexp else "announced length 2^%d" % list(lenexp.values())[0]))
+    number(cases)
+    tf, st = core.run_harness(ctx, cases)
+    failed, nv = core.tlc_validate(ctx, "TraceCodec", tf)
+    return run.decide(
+        ctx, "TraceCodec", cases, tf, failed, nv, level_note="",
+        rule="targets: the struct/slice/map/pointer/interface types of the TLC-enumerated GenGoType programs; streams (seeded): arbitrary "
+             "values (scalar for container, array for object, ...), documents built for OTHER types, matching documents, and containers "
+             "announcing 2^20, 2^28, 2^31, 2^62, 2^63-1 elements (top level and inside a matching member) without backing them; each is "
+             "delivered up to several abandon positions incl. the full stream; then Reset + SetTarget + a follow-up document on the same "
+             "unfolder and on a new one. TraceCodec!UnfoldXVerdict requires outcome ok (error or success, never panic/hang), intact "
+             "guard arrays around the target, allocation <= 256KiB + 4KiB per delivered event, stacks after Reset equal to a new "
+             "unfolder's (hook), and equal follow-up results. Distinct = distinct (type, stream, abandon position); non-trivial = at "
+             "least 2 events delivered.",
+        nontrivial=lambda c: c["sub"]["abandon"] >= 2,
+        assumptions=TCB + ["a stray write that hits neither the 64-byte guard arrays nor makes the runtime crash is not observed",
+                           "allocation measured with runtime.MemStats.TotalAlloc around the delivery loop"])
+
+
 PROPS = {
+    "C14": c14,
+    "C20": c20,
     "C13": c13,
     "C12": c12,
     "C11": c11,
